@@ -153,6 +153,11 @@ class Component(BaseObject):
     # transformation
 
     def _set_transformation(self, value):
+        if not isinstance(value, tuple):
+            # a transformation is a value: a list handed in by the caller (or by a pen)
+            # must not stay shared with the caller, with every pen this component is
+            # drawn into and with the copies made of its glyph
+            value = tuple(value)
         oldValue = self._transformation
         if value == oldValue:
             return
